@@ -369,9 +369,10 @@ func (s *session) check(atFixpoint bool) *view {
 func (s *session) isLocalAcct(v *view, a common.Address) bool { return v.locals[a] }
 
 // transition judges what left and what entered the pool between pre and post.
-//   accepted:  submitted in this operation with a nil error
-//   cands:     further transactions the operation may legitimately have (re)introduced
-//   demoting:  the operation can move pending transactions back to the queue
+//
+//	accepted:  submitted in this operation with a nil error
+//	cands:     further transactions the operation may legitimately have (re)introduced
+//	demoting:  the operation can move pending transactions back to the queue
 func (s *session) transition(post *view, accepted, cands []*txrec, maxPrice *big.Int, demoting bool, anyAppear func(*txrec) bool) {
 	pre := s.pre
 	head := s.ch.Head()
